@@ -75,6 +75,14 @@ pub fn name_in_packets(s: &str) -> Vec<(&'static str, bool)> {
     put_str(&mut b, s);
     put_str(&mut b, "msg");
     out.push(("v3 CONNECT will", v3_ok(&frame(0x10, &b))));
+    // the same under protocol level 3 (MQTT 3.1, name "MQIsdp")
+    let mut b = Vec::new();
+    put_str(&mut b, "MQIsdp");
+    b.extend_from_slice(&[3, 0b0000_0110, 0, 10]);
+    put_str(&mut b, "cid");
+    put_str(&mut b, s);
+    put_str(&mut b, "msg");
+    out.push(("v3.1 CONNECT will", v3_ok(&frame(0x10, &b))));
     // v5 PUBLISH qos0, no properties
     let mut b = Vec::new();
     put_str(&mut b, s);
